@@ -316,7 +316,7 @@ fn scenario_wl() {
     let mut shared: Vec<(usize, Arc<Raw>)> = Vec::new();
     let nshared = rng.gen_range(1..=3usize);
     for k in 0..nshared {
-        let role = if k == 2 && fam.split { if rng.gen_bool(0.5) { Role::Enc } else { Role::Dec } } else { Role::Both };
+        let role = if k >= 1 && fam.split && rng.gen_bool(0.4) { if rng.gen_bool(0.7) { Role::Enc } else { Role::Dec } } else { Role::Both };
         let ty = vs.ty(role).unwrap();
         let t = &reg.types[ty];
         if !(t.send && t.sync) {
@@ -364,11 +364,11 @@ fn scenario_wl() {
                     let want = wl_model(t, &key, d, &data);
                     prog.push(WOp::Call { inst: i, dir: d, shape, data, want });
                 }
-                4..=6 if t.clone.is_some() => {
+                4..=6 if t.clone.is_some() && !(t.role == Role::Enc && kind == 6) => {
                     let want = wl_model(t, &key, d, &data);
                     prog.push(WOp::CloneUse { inst: i, dir: d, data, want });
                 }
-                7..=8 if t.role == Role::Enc => {
+                6..=8 if t.role == Role::Enc => {
                     let convs: Vec<usize> = (0..reg.convs.len()).filter(|&c| reg.convs[c].from == shared[i].0).collect();
                     if let Some(&c) = convs.get(rng.gen_range(0..convs.len().max(1))) {
                         let tt = &reg.types[reg.convs[c].to];
